@@ -27,7 +27,7 @@ THEOREMS = [f'Gnpy.Edfa.{t}' for t in (
     'gain_profile_flat', 'nf_no_pad', 'call_spec',
     'out_of_band_dropped', 'in_band_kept', 'demux_sublist', 'call_none_iff_no_channel_in_band',
     'gain_profile_normalised_partial', 'callSeq_unsaturated', 'callSeq_persists', 'nf_stage_at_gmax_gmin',
-    'nf_openroadm', 'nf_openroadm_preamp', 'multiCall_none_iff', 'multiCall_per_band')]
+    'nf_openroadm', 'nf_openroadm_preamp', 'multiCall_none_iff', 'multiCall_per_band', 'coil_pos_of_spread')]
 PARTIAL = ['gain_profile_normalised_partial: under tilt or gain ripple the secant step of Edfa._gain_profile only '
            'approximates the target average gain; proved: the profile is g1st - voa + dgt*x for one scalar x (so its '
            'shape is exactly ripple + x\'*dgt) and the flat case is exact; the residual of the average gain is '
@@ -682,10 +682,36 @@ def run_fromjson(case, drv):
             'advanced_model': 'NoneType', 'dual_stage': 'NoneType'}
     model = ('ok', want[m['ok']]) if 'ok' in m else ('err', m['err'])
     res.cmp_exact('Amp.from_json.outcome', impl, model)
-    # monitor: the NF definition built is the one the entry's type_def names (default: variable_gain)
+    # monitor: the NF definition built is the one the entry's type_def names (default: variable_gain) and the loaded
+    # amplifier applies it: a crossing with an unsaturating 2-channel comb yields the NF of that model
     if amp is not None:
         if type(amp.nf_model).__name__ != want[td or 'variable_gain']:
             res.fail(f'NF model: entry of type_def {td} was given nf_model {type(amp.nf_model).__name__}')
+        elif ((td or 'variable_gain') in ('variable_gain', 'fixed_gain', 'openroadm', 'openroadm_preamp', 'advanced_model')
+              and all(k in e for k in ('gain_flatmax', 'gain_min', 'p_max'))):
+            from gnpy.tools.json_io import network_from_json
+            from gnpy.core.exceptions import EquipmentConfigError
+            g = float(e.get('gain_flatmax', 20))
+            topo = {'elements': [nets.trx('A'), nets.edfa('amp', 'x', {'gain_target': g, 'tilt_target': 0, 'out_voa': 0}),
+                                 nets.trx('B')], 'connections': [nets.cx('A', 'amp'), nets.cx('amp', 'B')]}
+            el = nets.by_uid(network_from_json(topo, eq))['amp']
+            f0 = int(el.params.f_min) + 500_000_000_000
+            comb = [[f0 + i * 50_000_000_000, 50_000_000_000, 32e9, -40.0] for i in range(2)]
+            try:
+                el(make_si({'chans': comb}))
+                ptot = 2 * 10 ** (-7.0)
+                tdef = td or 'variable_gain'
+                exp_nf, _ = amplib.mon_stage_nf(tdef, el.params.nf_model, el.params.nf_fit_coeff, el.params.gain_min,
+                                                el.params.gain_flatmax, g, 10 * math.log10(ptot * 1e3), 2, 50e9)
+                ripple = np.interp([float(c[0]) for c in comb], np.linspace(el.params.f_min, el.params.f_max,
+                                                                           len(el.params.nf_ripple)),
+                                   np.asarray(el.params.nf_ripple, dtype=float))
+                got = np.broadcast_to(np.asarray(el.nf, dtype=float), (2,))
+                if abs(float(got[0]) - (exp_nf + float(ripple[0]))) > 1e-6:
+                    res.fail(f'NF model: loaded {tdef} entry gives NF {float(got[0])}, its model gives {exp_nf + float(ripple[0])}')
+            except EquipmentConfigError as ex:
+                res.fail(f'NF model: entry loaded with the {td or "default variable_gain"} NF model cannot be '
+                         f'used: {ex}', cls='entry-without-type_def-unusable' if td is None else 'unlisted')
     res.nontrivial = True
     res.stats.update({'fromjson_cases': 1, f'fromjson_{impl[0]}_{impl[1]}': 1})
     return res
